@@ -120,6 +120,11 @@ func wrapperFaithful(c *Ctx, id string) {
 		}
 		c.Check(ok, id, "map-wrapper:"+name, fn.Pos(), name+" forwards to the wrapped map's "+e.inner+" with its own arguments and returns the result untouched", "wrapper.ConcurrentSwissMap."+name+" does not simply forward ("+why+"): every rule that treats the map operations as primitives is void")
 	}
+	if fn := methods["UnmarshalJSON"]; fn != nil {
+		wrapperDecode(c, id, fn)
+	} else {
+		c.Undecided(id, "map-wrapper:UnmarshalJSON", 0, "wrapper.ConcurrentSwissMap.UnmarshalJSON not found")
+	}
 	// Range
 	if fn := methods["Range"]; fn == nil || len(fn.AnonFuncs) != 1 {
 		c.Undecided(id, "map-wrapper:Range", 0, "wrapper.ConcurrentSwissMap.Range with one callback closure not found")
@@ -159,6 +164,49 @@ func wrapperFaithful(c *Ctx, id string) {
 		}
 		c.Check(ok, id, "map-wrapper:Range", fn.Pos(), "Range visits the wrapped map, calling f(key, value) once per entry and stopping exactly when f returns false", "wrapper.ConcurrentSwissMap.Range does not iterate faithfully ("+why+"): loops over positions, dirty marks and observers would skip entries or stop early")
 	}
+}
+
+// wrapperDecode (part of wrapperFaithful): UnmarshalJSON installs entries only when the whole input decoded — every
+// Store is reached only under err == nil of the decoder, whose error is returned. A half-decoded document (right
+// snapshot, sequence number still zero) must never become a checkpoint.
+func wrapperDecode(c *Ctx, id string, fn *ssa.Function) {
+	c.see(fn)
+	var dec *ssa.Call
+	allInstrs(fn, func(in ssa.Instruction) {
+		if call, ok := in.(*ssa.Call); ok && strings.HasSuffix(calleeName(call.Common()), "Unmarshal") && hasErrorResult(call.Common()) {
+			dec = call
+		}
+	})
+	if dec == nil {
+		c.Undecided(id, "map-wrapper:UnmarshalJSON", fn.Pos(), "no decoder call found")
+		return
+	}
+	okStores, n := true, 0
+	allInstrs(fn, func(in ssa.Instruction) {
+		cc := callOf(in)
+		if cc == nil || cc.StaticCallee() == nil {
+			return
+		}
+		name := cc.StaticCallee().Name()
+		if i := strings.Index(name, "["); i > 0 {
+			name = name[:i]
+		}
+		if name != "Store" && name != "StoreIf" {
+			return
+		}
+		n++
+		if !errGuard(in.Block(), true, func(v ssa.Value) bool { return v == ssa.Value(dec) || isExtractOf(v, dec) }) {
+			okStores = false
+		}
+	})
+	ers := errResults(dec)
+	returned := len(ers) > 0 && reported(errorSinks(ers[0]))
+	c.Check(okStores && n >= 1 && returned, id, "map-wrapper:UnmarshalJSON", fn.Pos(), "entries are installed only when the whole input decoded; the decoder's error is returned", fmt.Sprintf("UnmarshalJSON installs entries although the input did not decode completely (stores guarded by err==nil: %v, %d stores, error returned: %v): a torn checkpoint file yields half-decoded documents", okStores, n, returned))
+}
+
+func isExtractOf(v ssa.Value, call *ssa.Call) bool {
+	ex, ok := v.(*ssa.Extract)
+	return ok && ex.Tuple == ssa.Value(call)
 }
 
 // unwrapLoad strips a load (*x) and conversions.
